@@ -77,6 +77,12 @@ func NewStd1(w *World, o Std1Opts) *Std1 {
 	if o.Retry == 0 {
 		o.Retry = 3 * time.Second
 	}
+	if o.IdleHold < 0 { // leave the library default
+		o.IdleHold = 0
+	}
+	if o.Retry < 0 {
+		o.Retry = 0
+	}
 	e := w.NewEnv(o.LocalID)
 	if e == nil {
 		return nil
